@@ -99,7 +99,10 @@ fn short_file(s: &Server, declared: usize, actual: usize) -> Option<String> {
     let mut correct = format!("HTTP/1.1 200 OK\r\ncontent-length: {declared}\r\n\r\n").into_bytes();
     correct.extend_from_slice(&body_of(declared));
     if actual >= declared { return if out == correct { None } else { Some(format!("{desc} expected=complete-response actual={} bytes, statuses {:?}", out.len(), statuses(&out))) }; }
-    if !correct.starts_with(&out) { return Some(format!("{desc} expected=prefix-of-the-one-serialisation actual=statuses {:?}, {} bytes", statuses(&out), out.len())); }
+    // either a prefix of the one correct serialisation reached the client (then nothing else), or -- no byte of it having
+    // been sent -- the connection carried a single 500 response
+    let only_500 = statuses(&out) == vec![500] && out.starts_with(b"HTTP/1.1 500 ");
+    if !correct.starts_with(&out) && !only_500 { return Some(format!("{desc} expected=prefix-of-the-one-serialisation-or-a-single-500 actual=statuses {:?}, {} bytes", statuses(&out), out.len())); }
     None
 }
 /// exchange integrity on one connection: responses in order, connection closed after 5xx
